@@ -143,6 +143,9 @@ package keeper
 //@ define powsum(a, n) = sum m in [0, n) :: a.Reporters[m].Power
 //@ define allpow(rs, k) = sum j in [0, k) :: powsum(rs[j], len(rs[j].Reporters))
 
+// ownreport(rs, n, a, h, q): among the first n aggregates there is a report by reporter a made at block h in an
+// aggregate whose query id is q (the stake snapshot that splits a reward is stored under (query, reporter, block)).
+//@ define ownreport(rs, n, a, h, q) = exists j in [0, n) :: exists m in [0, len(rs[j].Reporters)) :: rs[j].Reporters[m].Reporter == a && rs[j].Reporters[m].BlockNumber == h && rs[j].QueryId == q
 //@ func (k Keeper).AllocateRewards(ctx, reports, reward, fromPool) (err)
 //@ uses sum_congruence
 //@ requires [reward_non_negative] reward >= 0
@@ -155,7 +158,9 @@ package keeper
 //@ loop 0 "for _, report := range reports"
 //@ loop 0 invariant [total_power_counts_every_report_so_far] totalPower == mod(allpow(reports, $i), 18446744073709551616)
 //@ loop 0 invariant [collected_power_is_the_reporters_own] forall a string :: has(reportersMap, a) ==> reportersMap[a].Power == someint("power_of", a)
+//@ loop 0 invariant [recorded_height_and_query_are_of_one_of_the_reporters_own_reports] forall a string :: has(reportersMap, a) ==> ownreport(reports, $i, a, reportersMap[a].Height, reportersMap[a].queryId)
 //@ loop 1 "for _, r := range report.Reporters"
+//@ loop 1 invariant [recorded_height_and_query_are_of_one_of_the_reporters_own_reports] forall a string :: has(reportersMap, a) ==> ownreport(reports, $i0 + 1, a, reportersMap[a].Height, reportersMap[a].queryId)
 //@ loop 1 invariant [total_power_counts_every_report_so_far] totalPower == mod(allpow(reports, $i0) + powsum(reports[$i0], $i), 18446744073709551616)
 //@ loop 1 invariant [collected_power_is_the_reporters_own] forall a string :: has(reportersMap, a) ==> reportersMap[a].Power == someint("power_of", a)
 //@ ensures [every_share_is_taken_of_the_total_power_of_all_reports] called(CalculateRewardAmount) ==> arg(CalculateRewardAmount, totalPower) == mod(allpow(reports, len(reports)), 18446744073709551616)
@@ -167,8 +172,10 @@ package keeper
 //@ loop 2 invariant [collected_addresses_are_visited_keys] forall j in [0, len(sortedReporters)) :: seen(sortedReporters[j].address)
 //@ loop 2 invariant [collected_power_is_the_reporters_own] forall a string :: has(reportersMap, a) ==> reportersMap[a].Power == someint("power_of", a)
 //@ loop 2 invariant [share_weight_is_the_reporters_own_power] forall j in [0, len(sortedReporters)) :: sortedReporters[j].data.Power == someint("power_of", sortedReporters[j].address)
+//@ loop 2 invariant [recorded_height_and_query_are_of_one_of_the_reporters_own_reports] (forall a string :: has(reportersMap, a) ==> ownreport(reports, len(reports), a, reportersMap[a].Height, reportersMap[a].queryId)) && forall j in [0, len(sortedReporters)) :: ownreport(reports, len(reports), sortedReporters[j].address, sortedReporters[j].data.Height, sortedReporters[j].data.queryId)
 //@ loop 2 invariant [collected_addresses_are_distinct] forall a in [0, len(sortedReporters)) :: forall b in [0, len(sortedReporters)) :: a != b ==> sortedReporters[a].address != sortedReporters[b].address
 //@ loop 3 invariant [share_weight_is_the_reporters_own_power] forall j in [0, len(sortedReporters)) :: sortedReporters[j].data.Power == someint("power_of", sortedReporters[j].address)
+//@ loop 3 invariant [every_tip_is_split_by_the_stake_snapshot_of_one_of_the_reporters_own_reports] (forall j in [0, len(sortedReporters)) :: ownreport(reports, len(reports), sortedReporters[j].address, sortedReporters[j].data.Height, sortedReporters[j].data.queryId)) && (called(AllocateTip) ==> exists j in [0, len(reports)) :: exists m in [0, len(reports[j].Reporters)) :: accbytes(reports[j].Reporters[m].Reporter) == bytes(arg(AllocateTip, addr)) && reports[j].Reporters[m].BlockNumber == arg(AllocateTip, height) && reports[j].QueryId == arg(AllocateTip, queryId))
 //@ loop 3 invariant [payout_order_is_strictly_by_address] forall a in [0, len(sortedReporters)) :: forall b in [0, len(sortedReporters)) :: a < b ==> sortedReporters[a].address < sortedReporters[b].address
 
 // ---- aggregate history lookups (C08) ----
